@@ -381,3 +381,9 @@ Proof.
   destruct (skip 64 ty r0) as [u r'|k]; cbn [bind]; [|discriminate].
   intros H. apply IH in H. cbn in H2. lia.
 Qed.
+
+Lemma skip_terminates_and_budget d ft bs : skip d ft bs <> Err e_fuel /\ skip 0 ft bs = Err e_inv.
+Proof. split; [apply skip_never_out_of_fuel|apply skip_depth_zero]. Qed.
+
+Lemma footer_decoders_never_out_of_fuel bs : meta_probe bs <> MErr e_fuel /\ schema_probe bs <> Err e_fuel.
+Proof. split; [apply meta_probe_never_out_of_fuel|apply schema_probe_never_out_of_fuel]. Qed.
